@@ -66,7 +66,19 @@ def script_text(kind, lang, purpose, salt, rk, dk, datum):
 
 
 def build_case(rs, budget=None, variant=0, direct=False, cid=0):
-    """model transaction -> harness case; variant selects the orders"""
+    """model transaction -> harness case; variant selects the orders. Variant 3: every output spent or referenced comes from ONE previous
+    transaction (the out-refs differ by their index only), in the reversed orders of variant 1."""
+    case = _build_case(rs, budget, 1 if variant == 3 else variant, direct, cid)
+    if variant == 3:
+        # keep the relative order of the out-refs: (tx, ix) pairs sorted -> indices 0, 1, 2 ... of transaction 0x33
+        refs = sorted(set((i["tx"], i["ix"]) for i in case["inputs"] + case["ref_inputs"]))
+        for i in case["inputs"] + case["ref_inputs"]:
+            i["key"] = i["tx"]                      # the address of a key output stays what it was
+            i["tx"], i["ix"] = 0x33, refs.index((i["tx"], i["ix"]))
+    return case
+
+
+def _build_case(rs, budget=None, variant=0, direct=False, cid=0):
     scripts, inputs, ref_inputs, mint, wds, reds, witness = [], [], [], [], [], [], []
     inputs.append({"tx": 0x01, "ix": 0})                     # a key input that sorts first: spend indices are not body positions
     for j, r in enumerate(rs):
@@ -124,9 +136,19 @@ def c19(tier):
     if len(txs) < 30000:
         raise vlib.ToolError("MC_TxSim printed only %d transactions" % len(txs))
     states, generated = r.distinct, r.generated
+    # Plutus V1 on its own (a V1 context cannot describe inline datums or reference scripts, so V1 is not mixed with the others)
+    r1 = vlib.tlc("MC_TxSim", cfg="MC_TxSimV1.cfg", workers=4, timeout=1200, xmx="4g", metaname="MC_TxSimV1")
+    if not r1.ok:
+        raise vlib.ToolError("MC_TxSim (V1) failed: %s\n%s" % (r1.error, r1.out[-1200:]))
+    t1 = r1.tagged("REPLAY")
+    if len(t1) < 300:
+        raise vlib.ToolError("MC_TxSim (V1) printed only %d transactions" % len(t1))
+    states += r1.distinct
+    generated += r1.generated
     if tier == "quick":
         # every transaction of one redeemer, every 4th of two (deterministic)
         txs = [t for i, t in enumerate(txs) if len(t["rs"]) == 1 or i % 4 == vlib.seed() % 4]
+        txs += [t for i, t in enumerate(t1) if len(t["rs"]) == 1 or i % 2 == vlib.seed() % 2]
     else:
         # three redeemers over a smaller catalogue: the budget is handed over twice
         r3 = vlib.tlc("MC_TxSim", cfg="MC_TxSim3.cfg", workers=12, timeout=3000, xmx="16g", metaname="MC_TxSim3")
@@ -135,7 +157,7 @@ def c19(tier):
         t3 = [t for t in r3.tagged("REPLAY") if len(t["rs"]) == 3]
         if len(t3) < 10000:
             raise vlib.ToolError("MC_TxSim (3 redeemers) printed only %d transactions" % len(t3))
-        txs += t3
+        txs += t3 + t1
         states += r3.distinct
         generated += r3.generated
         maxr = 3
@@ -187,7 +209,7 @@ def c19(tier):
     for ti, t in enumerate(txs):
         if any(shape(e) not in cost for e in t["rs"] if e["kind"] != "fail" and not missing(e)):
             continue
-        for v in (0, 1, 2):
+        for v in (0, 1, 2, 3):
             cases.append(build_case(t["rs"], budget_of(t), v, cid=len(cases)))
             meta.append((ti, v))
     obs = vlib.run_harness_stream("tx_ops", cases, per_case_timeout=30)
@@ -269,14 +291,14 @@ def c19(tier):
     cov = {"states": states, "transitions": generated, "traces_validated_against_impl": len(cases),
            "evaluations": len(cases) + len(keys), "distinct_nontrivial": len(by_tx), "script_shapes": len(cost), "verdicts": stats,
            "samples": [{"tx": txs[len(txs) // 3]["rs"], "budget": txs[len(txs) // 3]["budget"], "expected": txs[len(txs) // 3]["out"]}],
-           "rule": "MC_TxSim: every sequence of <= %d redeemers over {spend, mint, withdraw} x {cheap, costly, picky, fail} x {V2, V3} x script {witness, reference, missing} "
+           "rule": "MC_TxSim: every sequence of <= %d redeemers over {spend, mint, withdraw} x {cheap, costly, picky, fail} x {V2, V3; V1 on its own} x script {witness, reference input, spent input, missing} "
                    "x datum {inline, by hash in witnesses, by hash missing, none} x budget {default, exact, one cpu short, one mem short, exactly the first redeemer}; "
-                   "each built as a Conway transaction and run in 3 orders of resolved inputs / witness scripts / datums / body inputs / redeemer container" % maxr,
+                   "each built as a Conway transaction and run in 3 orders of resolved inputs / witness scripts / datums / body inputs / redeemer container, and once more with every spent or referenced output coming from one previous transaction" % maxr,
            "exhaustive": tier != "quick"}
     rc = rep.finish()
     vlib.write_evidence("C19", tier, "model_checking", cov,
                         ["cost models are not supplied (the `aiken tx simulate` path): the machine's default costs per language are used",
-                         "certificates, votes, proposals, PlutusV1 and time-related context fields are not exercised",
+                         "certificates, votes, proposals and time-related context fields are not exercised",
                          "the script context is observed only through what picky scripts test (own redeemer, own datum, purpose tag) - it is not specified field by field",
                          "a failing script and an exhausted budget are both machine failures and are not told apart"],
                         time.time() - t0, len(rep.violations))
